@@ -145,10 +145,19 @@ type service struct {
 	subs  []interface{}
 	qoss  []byte
 	rmsgs []*message.PublishMessage
+
+	// startMu is held by start() and taken by stop() before it tears anything down.
+	startMu sync.Mutex
 }
 
 func (svc *service) start() error {
 	var err error
+
+	// stop() may be called by the processor as soon as that goroutine runs (a
+	// client that disconnects right after its CONNACK): it has to wait until
+	// everything below has been set up and started.
+	svc.startMu.Lock()
+	defer svc.startMu.Unlock()
 
 	// Create the incoming ring buffer
 	svc.in, err = newBuffer(svc.bufferSize)
@@ -239,6 +248,10 @@ func (svc *service) stop() {
 	if !doit {
 		return
 	}
+
+	// Not before start() has finished (see there).
+	svc.startMu.Lock()
+	svc.startMu.Unlock()
 	verifEvent("stop.begin", svc, 0)
 	defer verifEvent("stop.done", svc, 0)
 	verifMark(verifMarkStop, svc)
